@@ -45,6 +45,7 @@ type c14Params struct {
 	flat        int  // flat run: that many sends, then lost(65535)
 	noClose     bool
 	noInject    bool
+	flood       int  // that many routing indications arrive before the history begins (parked when nobody reads)
 	resendFails bool // a socket write may fail while a lost batch is being repeated
 }
 
@@ -126,6 +127,15 @@ func c14Run(p c14Params) func() {
 					mc.Log(Ret{"Send", mid, errStr(err), t0})
 				}
 			})
+		}
+		if p.flood > 0 {
+			mc.SetQuiet(true)
+			for i := 0; i < p.flood; i++ {
+				mc.Log(Op{"inbound", 2000 + i, false})
+				sock.Deliver(&knxnet.RoutingInd{Payload: Msg(2000 + i)})
+			}
+			mc.Sleep(1 * ms)
+			mc.SetQuiet(false)
 		}
 		nsym := 4 + len(p.losts)
 		if !p.noInject {
@@ -407,6 +417,10 @@ func init() {
 	register("both", &h.Scenario{Name: "C14-L3-retain2-second-sender", Prop: "C14", P: 1, F: 0, D: 1, Run: c14Run(d), Check: c14Oracle(d)})
 	rf := c14Params{L: 4, retain: 3, pause: 5, losts: []int{2, 3}, noClose: true, noInject: true, resendFails: true}
 	register("both", &h.Scenario{Name: "C14-L4-retain3-resend-write-fails", Prop: "C14", P: 0, F: 0, D: -1, Run: c14Run(rf), Check: c14Oracle(rf)})
+	// a backlog of inbound indications (nobody reads, or a reader from the start) must not keep the
+	// worker from answering lost indications and from closing Inbound on Close
+	fl := c14Params{L: 3, retain: 3, pause: 5, losts: []int{1, 2}, flood: 100}
+	register("both", &h.Scenario{Name: "C14-L3-retain3-after-100-inbound", Prop: "C14", P: 0, F: 0, D: -1, Run: c14Run(fl), Check: c14Oracle(fl)})
 	f1 := c14Params{L: 0, retain: 0, pause: 1, flat: 300}
 	register("both", &h.Scenario{Name: "C14-flat300-default-retain", Prop: "C14", P: 0, F: 0, D: -1, Run: c14Run(f1), Check: c14Oracle(f1)})
 	f2 := c14Params{L: 0, retain: 64, pause: 1, flat: 300}
